@@ -81,6 +81,7 @@ public:
     [[nodiscard]] bool stack_empty() const { return stackq_.empty(); }
     [[nodiscard]] auto stack_size() const { return stackq_.size(); }
     void stack_clear() { stackq_.clear(); }
+    stack_element& stack_at(std::size_t depth) { return stackq_[depth]; }
 
     std::string full_key() {
         std::string buf{};
@@ -309,6 +310,48 @@ iscan_open(tree_instance* ti, std::string_view l_key, scan_endpoint l_end, std::
     return iscan_next(ctx, out, bnv_cb);
 }
 
+// re-read the root of the layer the cursor is in (stack depth >= 2): descend from the Masstree
+// root along the link keys saved in the upper stack elements, validating every link like get().
+// returns nullptr if that layer no longer exists.
+static base_node* iscan_reload_layer_root(iscan_context* ctx) {
+retry_from_root:
+    base_node* root = ctx->get_ti()->load_root_ptr();
+    if (root == nullptr) { return nullptr; }
+    for (std::size_t depth = 0; depth + 1 < ctx->stack_size(); ++depth) {
+        const key_tuple link_key = ctx->stack_at(depth).key;
+        status check_status{status::OK};
+        std::tuple<border_node*, node_version64_body> node_and_v =
+                find_border(root, link_key.get_key_slice(), link_key.get_key_length(), check_status);
+        if (check_status == status::WARN_RETRY_FROM_ROOT_OF_ALL) {
+            goto retry_from_root; // NOLINT
+        }
+        border_node* target_border = std::get<0>(node_and_v);
+        node_version64_body v_at_fb = std::get<1>(node_and_v);
+retry_fetch_lv:
+        node_version64_body v_at_fetch_lv{};
+        std::size_t lv_pos{0};
+        link_or_value* lv_ptr = target_border->get_lv_of(
+                link_key.get_key_slice(), link_key.get_key_length(), v_at_fetch_lv, lv_pos);
+        if (v_at_fetch_lv.get_vsplit() != v_at_fb.get_vsplit() ||
+            (v_at_fetch_lv.get_deleted() && !v_at_fetch_lv.get_root())) {
+            goto retry_from_root; // NOLINT
+        }
+        if (lv_ptr == nullptr) { return nullptr; } // the link is gone, and the layer with it
+        base_node* next_layer = lv_ptr->get_next_layer();
+        node_version64_body final_check = target_border->get_stable_version();
+        if (final_check.get_vsplit() != v_at_fb.get_vsplit() ||
+            (final_check.get_deleted() && !final_check.get_root())) {
+            goto retry_from_root; // NOLINT
+        }
+        if (final_check.get_vinsert_delete() != v_at_fetch_lv.get_vinsert_delete()) {
+            goto retry_fetch_lv; // NOLINT
+        }
+        if (next_layer == nullptr) { return nullptr; } // the link is being removed
+        root = next_layer;
+    }
+    return root;
+}
+
 // find next key/value
 // returns
 // OK : found key/value. stored value to `out`
@@ -346,9 +389,16 @@ retry_from_root:
                 return status::OK_SCAN_END;
             }
             // L1+
+            // either this layer was emptied or only its interior root collapsed:
+            // ask the upper layers for the current root of this layer
+            if (base_node* new_root = iscan_reload_layer_root(ctx); new_root != nullptr) {
+                ctx->stack_top().layer_root = new_root;
+                goto retry_from_root; // NOLINT
+            }
+            // this layer no longer exists. return to border in upper layer
             ctx->stack_pop();
             st = &ctx->stack_top(); // sync alias
-            goto retry_from_root; // NOLINT
+            goto next_layer; // NOLINT
         }
         if (!rv.get_root()) {
             // saved-root is now not root. split?
@@ -356,6 +406,13 @@ retry_from_root:
             if (ctx->stack_size() == 1) { // L0
                 base_node* new_mt_root = ctx->get_ti()->load_root_ptr();
                 ctx->stack_top().layer_root = new_mt_root;
+                goto retry_from_root; // NOLINT
+            }
+            // L1+
+            // this layer still has keys under a new root (reached through the link in the
+            // upper layer): keep iterating this layer from last_key
+            if (base_node* new_root = iscan_reload_layer_root(ctx); new_root != nullptr) {
+                ctx->stack_top().layer_root = new_root;
                 goto retry_from_root; // NOLINT
             }
             ctx->stack_pop();
